@@ -76,6 +76,8 @@ type Machine struct {
 	initDone map[*ssa.Package]bool
 
 	RepoPrefix string // import path prefix of the code under test
+	RaceDetect bool   // happens-before race detection along the explored schedule (race.go)
+	race       *raceState
 	Intrinsics map[string]Intrinsic
 	ExecReal   map[string]bool // external packages whose SSA bodies are executed
 
